@@ -74,6 +74,35 @@ ATTR_NAMES = ["a", "b", "c", "d", "x", "y", "a_b", "b_c", "gyro", "motor"]
 COMP_NAMES = ["a", "b", "c", "d", "e", "a_b", "x"]
 INHERITED = ["control_loop_wait_time", "use_teleop_in_autonomous", "error_report_interval"]
 
+# Names a name-based test of the injection code could trip on although the property gives them no
+# special role.  The only names the property (and the model) treat specially are a leading underscore
+# and -- following the code -- exactly "logger".
+_L = "logger"
+LOGGER_SUBSTRINGS = sorted({_L[i:j] for i in range(len(_L)) for j in range(i + 1, len(_L) + 1)} - {_L},
+                           key=lambda x: (len(x), x))        # l o g e r lo og gg ge er log ... ogger (19)
+LOGGER_SUPERSTRINGS = ["loggers", "logger_", "logger2", "xlogger", "my_logger", "logger_x"]
+LOGGER_CASE = ["Logger", "LOGGER", "loggeR"]
+ODD_SHAPES = ["a_", "x_", "a__b", "x1", "Z", "camelCase", "UPPER_CASE"]
+ODD_NAMES = LOGGER_SUBSTRINGS + LOGGER_SUPERSTRINGS + LOGGER_CASE + ODD_SHAPES
+ODD_COMP_NAMES = ["log", "g", "er", "lo", "Logger", "logger2", "x_"]
+
+
+def name_class(n):
+    """the class of unusual (but perfectly ordinary public) names n belongs to, or None"""
+    if n == _L or n.startswith("_"):
+        return None
+    if n in _L:
+        return "substring-of-logger"
+    if _L in n:
+        return "contains-logger"
+    if n.lower() == _L:
+        return "case-variant-of-logger"
+    if n.endswith("_") or "__" in n:
+        return "trailing-or-double-underscore"
+    if n != n.lower() or any(ch.isdigit() for ch in n):
+        return "uppercase-or-digit"
+    return None
+
 
 # ---------------------------------------------------------------------------
 # class ids and the isinstance table (computed from the spec, not by CPython)
@@ -632,6 +661,7 @@ def analyse(spec, inherited):
         return "right" if info[o] == T else "subclass"
     combos = []
     callable_reqs = []
+    name_reqs = []
 
     def req(m, c, a, form, where):
         ft = form_type(form)
@@ -639,6 +669,9 @@ def analyse(spec, inherited):
             faults.append((where, c, a, "nontype", 2))
             return None
         combos.append((where, state(m, a, ft[1]), state(m, "%s_%s" % (c, a), ft[1])))
+        if name_class(a):
+            name_reqs.append((where, name_class(a), "plain+prefixed-name" if (a in m and "%s_%s" % (c, a) in m) else
+                              "plain-name" if a in m else "prefixed-name" if "%s_%s" % (c, a) in m else "absent"))
         o = pick(m, c, a)
         if o is None:
             faults.append((where, c, a, "absent", 1))
@@ -676,7 +709,8 @@ def analyse(spec, inherited):
                 continue
             exp_attr[("m", j, a)] = req(m, md["name"], a, form, "mode")
     return {"comps": comps, "faults": faults, "exp_ctor": exp_ctor, "exp_attr": exp_attr, "rel": rel,
-            "info": info, "inj": inj, "combos": combos, "callable_reqs": callable_reqs, "callables": callables}
+            "info": info, "inj": inj, "combos": combos, "callable_reqs": callable_reqs, "callables": callables,
+            "name_reqs": name_reqs}
 
 
 def classify(m, inj, comps, c, a):
@@ -882,9 +916,10 @@ FALSY = ("zero", "empty", "elist", "etuple", "false", "float", "edict")
 OK_REL = ["name"] * 8 + ["prefix"] * 4 + ["both"] * 3 + ["none_prefix"] * 2 + ["subclass"] * 3 + ["falsy"] * 4 + [
     "preset_class", "preset_init", "preset_none", "private", "alias_ok", "alias_ok", "compref", "compref",
     "compref", "compref", "logger", "inherited", "fwd", "object"] + ["callable"] * 4 + ["callable_prefix"] * 2 + [
-    "inherited_callable"]
+    "inherited_callable"] + ["oddname"] * 3 + ["oddname_both", "oddname_prefix"]
 CTOR_REL = ["name"] * 6 + ["prefix"] * 3 + ["both", "none_prefix", "subclass", "falsy", "falsy", "alias_ok", "object",
-                                            "fwd", "inherited"] + ["callable"] * 3 + ["callable_prefix", "inherited_callable"]
+                                            "fwd", "inherited"] + ["callable"] * 3 + ["callable_prefix", "inherited_callable"] + [
+                                                "oddname", "oddname", "oddname_both", "oddname_prefix"]
 BAD_REL = ["absent", "absent", "wrongtype", "wrongtype", "alias_wrong", "optional", "union", "lit", "compref_wrong",
            "method", "method", "property", "none_only"]
 
@@ -905,6 +940,14 @@ class Gen:
         self.comp_names = []
         self.comp_class_of = {}
         self.forced = []
+        # name pools: mostly the plain ones; one robot in four draws attribute names (one in six component /
+        # mode names) from the unusual ones as well -- what a thing is called must not matter
+        self.attr_names = list(ATTR_NAMES)
+        self.comp_pool = list(COMP_NAMES)
+        if rng.random() < 0.25:
+            self.attr_names = rng.sample(ATTR_NAMES, 5) + rng.sample(ODD_NAMES, 6)
+        if rng.random() < 0.17:
+            self.comp_pool = COMP_NAMES[:5] + rng.sample(ODD_COMP_NAMES, 3)
 
     def supers(self, cid):
         up = {c: [p] if p else [] for c, p in self.data}
@@ -1064,6 +1107,20 @@ class Gen:
         elif rel == "inherited_callable":
             a = r.choice(INHERITED_CALLABLE)
             form = r.choice([["cls", 0], ["cls", 14], ["cls", CALLABLE_ABC], ["alias", "Callable[[int],int]"]])
+        elif rel in ("oddname", "oddname_both", "oddname_prefix"):
+            # an unusual name (substring of "logger", containing it, case variant, trailing underscore ...):
+            # stored under the plain name / under both names / under "<cname>_<name>" only
+            a = r.choice([x for x in ODD_NAMES if x not in self.comp_names and x != cname])
+            pa = "%s_%s" % (cname, a)
+            mk = self.fresh if r.random() < 0.8 else (lambda: self.fresh(True))
+            if rel == "oddname_prefix":
+                e = self.attr(pa, mk)
+                form = self.form_of_entry(e, a, cname, pa) if a not in self.rattrs else self.form_of_entry(self.rattrs[a], a, cname)
+            else:
+                if rel == "oddname_both":
+                    self.attr(pa, self.fresh)
+                e = self.attr(a, mk)
+                form = self.form_of_entry(e, a, cname)
         elif rel == "absent":
             form = ["cls", r.choice([0, 20, 1])]
         elif rel == "wrongtype":
@@ -1094,7 +1151,7 @@ class Gen:
         ncls = max(1, ncomp - (1 if r.random() < 0.3 else 0)) if ncomp else 0
         self.comps = [{"base": r.random() < 0.3, "hints": [], "init": None, "init_level": r.choice([0, 1]),
                        "presets": [], "setup": r.random() < 0.6, "falsy": r.random() < 0.15} for _ in range(ncls)]
-        names = r.sample(COMP_NAMES, ncomp)
+        names = r.sample(self.comp_pool, ncomp)
         users = {}
         for i, n in enumerate(names):
             k = i if i < ncls else r.randrange(ncls)
@@ -1108,7 +1165,7 @@ class Gen:
             cname = users[k][0]
             seen, pres = {}, {}
             for _ in range(r.choice([0, 1, 2, 2, 3, 3, 4, 5])):
-                a, form, preset = self.hint(cname, ATTR_NAMES)
+                a, form, preset = self.hint(cname, self.attr_names)
                 lvl = r.choice([0, 1]) if cc["base"] else 1
                 if (a, lvl) in seen or (a in [x[0] for x in seen] and not cc["base"]):
                     continue
@@ -1129,7 +1186,7 @@ class Gen:
                     elif self.want_bad() and r.random() < 0.3:
                         p, form = "_p", ["cls", 0]
                     else:
-                        p, form, _ = self.hint(cname, ATTR_NAMES, ctor=True)
+                        p, form, _ = self.hint(cname, self.attr_names, ctor=True)
                         if p == "logger" or p.startswith("_"):
                             continue
                     if p in used:
@@ -1137,7 +1194,7 @@ class Gen:
                     used.add(p)
                     cc["init"].append([p, form])
                     if r.random() < 0.4 and not p.startswith("_"):
-                        tgt = r.choice([p, p + "_kept", r.choice(ATTR_NAMES)])
+                        tgt = r.choice([p, p + "_kept", r.choice(self.attr_names)])
                         if tgt not in pres:
                             pres[tgt] = [tgt, "init", ["param", p]]
                             if r.random() < 0.5 and tgt not in [h[0] for h in cc["hints"]]:
@@ -1145,13 +1202,13 @@ class Gen:
             cc["presets"] = list(pres.values())
         modes = []
         for j in range(r.choice([0, 0, 0, 1, 1, 2])):
-            mname = ["auto", "m1", "a"][j] if r.random() < 0.8 else r.choice(COMP_NAMES)
+            mname = ["auto", "m1", "a"][j] if r.random() < 0.8 else r.choice(self.comp_pool)
             if mname in [m["name"] for m in modes]:
                 continue
             md = {"name": mname, "hints": [], "presets": [], "setup": r.random() < 0.5}
             pres = {}
             for _ in range(r.choice([0, 1, 2, 3])):
-                a, form, preset = self.hint(mname, ATTR_NAMES)
+                a, form, preset = self.hint(mname, self.attr_names)
                 if a in [h[0] for h in md["hints"]]:
                     continue
                 md["hints"].append([a, form])
@@ -1161,7 +1218,7 @@ class Gen:
             modes.append(md)
         # a few unrelated robot attributes
         for _ in range(r.choice([0, 1, 2])):
-            n = r.choice(ATTR_NAMES + ["_p", "%s_%s" % (r.choice(COMP_NAMES), r.choice(ATTR_NAMES))])
+            n = r.choice(self.attr_names + ["_p", "%s_%s" % (r.choice(self.comp_pool), r.choice(self.attr_names))])
             self.attr(n, lambda: self.fresh(r.random() < 0.3))
         rh = list(comp_rh)
         for n, e in list(self.rattrs.items()):
@@ -1285,11 +1342,32 @@ def product_specs(rng, reps):
         for plain in STATES:
             for pref in STATES:
                 for rep in range(reps):
-                    out.append(product_spec(rng, tkind, plain, pref, embed=(rep % 2 == 1)))
+                    # every third robot of a combination calls the attribute something unusual
+                    out.append(product_spec(rng, tkind, plain, pref, embed=(rep % 2 == 1),
+                                            attr_name=rng.choice(ODD_NAMES) if rep % 3 == 2 else None))
     return out
 
 
-def product_spec(rng, tkind, plain, pref, embed):
+def name_specs(rng):
+    """What the requested object is CALLED, enumerated: every unusual name (all proper substrings of
+    "logger", names containing it, case variants, trailing / double underscores, upper case, digits)
+      x target kind {component attribute, constructor parameter, mode attribute}
+      x {object under the plain name only, under the plain name and under '<target>_<name>'},
+    plus one robot per name with the object under the prefixed name only or wrong-typed under the plain
+    name (the name must not make a fault disappear either)."""
+    out = []
+    for nm in ODD_NAMES:
+        for tkind in ("attr", "ctor", "mode"):
+            for pref in ("absent", "right"):
+                out.append(product_spec(rng, tkind, "right", pref, embed=False, attr_name=nm))
+        tk = rng.choice(["attr", "ctor", "mode"])
+        out.append(product_spec(rng, tk, "absent", "right", embed=False, attr_name=nm))
+        out.append(product_spec(rng, tk, "wrong", rng.choice(["absent", "right"]), embed=rng.random() < 0.5, attr_name=nm))
+        out.append(product_spec(rng, tk, rng.choice(["subclass", "falsy", "callable"]), "wrong", embed=True, attr_name=nm))
+    return out
+
+
+def product_spec(rng, tkind, plain, pref, embed, attr_name=None):
     if embed:
         spec = repair(Gen(rng, "valid").make(), 0, rng)
     else:
@@ -1342,7 +1420,8 @@ def product_spec(rng, tkind, plain, pref, embed):
     T = 1 if use_int else 20
     names = {x[0] for x in spec["rattrs"]} | {h[0] for h in spec["rhints"]} | {m["name"] for m in spec["modes"]}
     tname = [n for n in ("p", "q", "pc", "pm") if n not in names][0]
-    attr = [n for n in ("v", "w", "vv") if n not in names and "%s_%s" % (tname, n) not in names][0]
+    attr = [n for n in ([attr_name] if attr_name else []) + ["v", "w", "vv"]
+            if n not in names and "%s_%s" % (tname, n) not in names][0]
     for nm, st in ((attr, plain), ("%s_%s" % (tname, attr), pref)):
         if st != "absent":
             spec["rattrs"].append([nm, rng.choice(["class", "create"] + (["base"] if spec["rbase"] else [])), "plain", value(st)])
@@ -1569,7 +1648,9 @@ def run(ctx):
     ncorpus = len(specs)
     specs += edge_specs(ctx.rng)
     specs += product_specs(ctx.rng, 6 if ctx.tier == "quick" else 40)
-    while len(specs) < ncorpus + n_random:
+    nspecs = name_specs(ctx.rng)
+    specs += nspecs
+    while len(specs) < ncorpus + n_random + len(nspecs):      # the name enumeration does not eat into the random part
         specs.append(gen_spec(ctx.rng))
     outs = run_many(specs)
     cases, terms = [], []
@@ -1592,6 +1673,11 @@ def run(ctx):
             ctx.count("combo=%s|plain=%s|prefixed=%s" % (where, st_plain, st_pref))
         for where, what, under in an["callable_reqs"]:
             ctx.count("callable-injectable=%s|%s|%s" % (where, what, under))
+        for where, ncls, under in an["name_reqs"]:
+            ctx.count("unusual-name=%s|%s|%s" % (ncls, where, under))
+        for n, lvl, kind, v in spec["rattrs"]:
+            if kind == "plain" and v is not None and name_class(n):
+                ctx.count("unusual-robot-attr-name=%s|%s" % (name_class(n), "createObjects" if lvl == "create" else "class-level"))
         for n, lvl, kind, v in spec["rattrs"]:
             if kind == "plain" and v is not None and v in an["callables"]:
                 ctx.count("callable-robot-attr=%s|%s" % (an["callables"][v], "createObjects" if lvl == "create" else "class-level"))
@@ -1639,7 +1725,11 @@ def run(ctx):
                 "the plain name x the same under '<target>_<name>' is enumerated (6 | 40 robots per combination, see distribution "
                 "combo=*); robot attributes whose value is callable without being a bound method (instance of a class with "
                 "__call__, functools.partial, class object, function on the instance / staticmethod, builtin function, callable "
-                "int, RobotBase's static functions; class level and createObjects level; see callable-*), "
+                "int, RobotBase's static functions; class level and createObjects level; see callable-*); what the object is "
+                "CALLED is enumerated too: all 19 proper substrings of 'logger', names containing it, case variants, trailing / "
+                "double underscores, upper case, digits x {attribute, ctor parameter, mode attribute} x {plain name, plain and "
+                "prefixed name} (+ prefixed only / wrong type), every third product robot and a quarter of the random robots "
+                "draw names from that pool (see unusual-name=*), "
                 "then 60% fault-free / 30% one planted fault / 10% wild; non-trivial = started with >= 2 components and a "
                 "cross-component reference or >= 3 injected attributes, or exactly one fault",
         "samples": samples, "exhaustive": False, "corpus_cases": ncorpus})
